@@ -199,6 +199,10 @@ func runCheck(repo, prop, tier, fnFilter, outDir string, noReplay, verbose bool)
 		if !hasProp(fc.Props, prop) {
 			continue
 		}
+		if be := e.bindErr[fc]; be != nil {
+			ts = append(ts, bindFailure(e, fc, prop, be))
+			continue
+		}
 		if fnFilter != "" && !strings.Contains(e.displayName(e.contractFn[fc]), fnFilter) {
 			continue
 		}
@@ -208,8 +212,12 @@ func runCheck(repo, prop, tier, fnFilter, outDir string, noReplay, verbose bool)
 		}
 		t, err := e.translate(fc)
 		if err != nil {
-			fmt.Fprintln(os.Stderr, "nsqvc: cannot decide (engine error, fail closed):", err)
-			return 2
+			// The contract no longer binds to the function's code (a clause names something that is
+			// gone, or the body left the supported subset): the obligations of this function cannot be
+			// generated, so the proof that passed before is lost. Reported as the failed obligation
+			// <func>/contract-binds (no input: nothing was solved).
+			ts = append(ts, bindFailure(e, fc, prop, err))
+			continue
 		}
 		t.addCovers()
 		ts = append(ts, t)
@@ -251,6 +259,21 @@ func runCheck(repo, prop, tier, fnFilter, outDir string, noReplay, verbose bool)
 		return 2
 	}
 	return 0
+}
+
+func bindFailure(e *Engine, fc *FuncContract, prop string, err error) *fnTrans {
+	name := fc.Name
+	if fn := e.contractFn[fc]; fn != nil {
+		name = e.displayName(fn)
+	}
+	t := &fnTrans{eng: e, fn: e.contractFn[fc], fc: fc, name: name, vars: map[string]*StateVar{}}
+	o := &Obligation{Name: name + "/contract-binds", Fn: name, Kind: "binds", Props: []string{prop},
+		Desc:   "every clause of the contract binds to the function's current code and the body is inside the supported subset",
+		Pos:    fmt.Sprintf("%s:%d", fc.File, fc.Line),
+		Result: "violated", Solver: "binder",
+		Outputs: map[string]string{"binder": err.Error()}}
+	t.obls = append(t.obls, o)
+	return t
 }
 
 // runCanaries (thorough tier): every confirmed seeded change of this property under /verif/seeded is
